@@ -574,7 +574,12 @@ class Factory:
                     for f in problem_features
                 )
                 if optimality_guarantee is not None:
-                    assert issubclass(EngineClass, OneshotPlannerMixin)
+                    assert (
+                        issubclass(EngineClass, OneshotPlannerMixin)
+                        or issubclass(EngineClass, ReplannerMixin)
+                        or issubclass(EngineClass, PortfolioSelectorMixin)
+                        or issubclass(EngineClass, PlanRepairerMixin)
+                    )
                     x.append(str(EngineClass.satisfies(optimality_guarantee)))
                 elif anytime_guarantee is not None:
                     assert issubclass(EngineClass, AnytimePlannerMixin)
